@@ -26,9 +26,17 @@ inductive Trans (s : St) : TLabel → St → Prop where
   | reset (hard : Bool) :
       Trans s none { a := s.a.reset hard, tab := s.tab.map fun _ => { live := false, blk := 0, off := 0, size := 0 } }
 
-/-- every operation is one elementary transition, or a write followed by one (write with truncation) -/
-theorem step_trans {s : St} (hI : Inv s) (op : Op) :
-    (∃ l, Trans s l (step s op).1) ∨ ∃ m l1 l2, Trans s l1 m ∧ Inv m ∧ Trans m l2 (step s op).1 := by
+/-- the caller's write an operation performs: span index and byte -/
+def Op.writes : Op → TLabel
+  | .write j b => some (j, b % 256)
+  | .wtrunc j b _ => some (j, b % 256)
+  | _ => none
+
+/-- every operation is one elementary transition, or a write followed by one (write with truncation); only `write` / `wtrunc`
+carry the caller's-write label -/
+theorem step_trans_lbl {s : St} (hI : Inv s) (op : Op) :
+    (∃ l, Trans s l (step s op).1 ∧ (l = op.writes ∨ (l = none ∧ ∀ j byte hd, op.writes = some (j, byte) → s.tab[j]? = some hd → hd.live = false))) ∨
+    ∃ m j byte, op.writes = some (j, byte) ∧ Trans s (some (j, byte)) m ∧ Inv m ∧ Trans m none (step s op).1 := by
   have rel : ∀ (s : St), Inv s → ∀ (j : Nat) (hd : Handle), s.tab[j]? = some hd → hd.live = true → ∀ ansOk : Ans,
       Trans s none (match s.a.release hd.blk hd.off with
         | (a, .ok _) => (({ a := a, tab := killHandle s.tab j } : St), ansOk)
@@ -66,14 +74,14 @@ theorem step_trans {s : St} (hI : Inv s) (op : Op) :
   cases op with
   | alloc req =>
     left
-    refine ⟨none, ?_⟩
+    refine ⟨none, ?_, Or.inl rfl⟩
     simp only [JitAlloc.step]
     rcases hr : s.a.alloc req with ⟨a', (e | sp)⟩
     · have t := Trans.allocErr (s := s) req e (by rw [hr]); rw [hr] at t; exact t
     · have t := Trans.allocOk (s := s) req sp (by rw [hr]); rw [hr] at t; exact t
   | release j =>
     left
-    refine ⟨none, ?_⟩
+    refine ⟨none, ?_, Or.inl rfl⟩
     simp only [JitAlloc.step]
     cases hj : s.tab[j]? with
     | none => exact Trans.same
@@ -84,7 +92,7 @@ theorem step_trans {s : St} (hI : Inv s) (op : Op) :
       | true => simp only [Bool.not_true, Bool.false_eq_true, if_false]; exact rel s hI j hd hj hl _
   | shrink j newSize =>
     left
-    refine ⟨none, ?_⟩
+    refine ⟨none, ?_, Or.inl rfl⟩
     simp only [JitAlloc.step]
     cases hj : s.tab[j]? with
     | none => exact Trans.same
@@ -99,7 +107,7 @@ theorem step_trans {s : St} (hI : Inv s) (op : Op) :
         · simp only [h0, if_false]; exact shr s hI j hd hj hl newSize h0
   | query j off =>
     left
-    refine ⟨none, ?_⟩
+    refine ⟨none, ?_, Or.inl rfl⟩
     simp only [JitAlloc.step]
     cases hj : s.tab[j]? with
     | none => exact Trans.same
@@ -116,7 +124,7 @@ theorem step_trans {s : St} (hI : Inv s) (op : Op) :
           · split <;> exact Trans.same
   | sstale j newSize =>
     left
-    refine ⟨none, ?_⟩
+    refine ⟨none, ?_, Or.inl rfl⟩
     simp only [JitAlloc.step]
     cases hj : s.tab[j]? with
     | none => exact Trans.same
@@ -141,28 +149,28 @@ theorem step_trans {s : St} (hI : Inv s) (op : Op) :
     left
     simp only [JitAlloc.step]
     cases hj : s.tab[j]? with
-    | none => exact ⟨none, Trans.same⟩
+    | none => exact ⟨none, Trans.same, Or.inr ⟨rfl, fun j' byte' hd' e' h' => by simp only [Op.writes, Option.some.injEq, Prod.mk.injEq] at e'; rw [← e'.1, hj] at h'; cases h'⟩⟩
     | some hd =>
       simp only
       cases hl : hd.live with
-      | false => exact ⟨none, by simpa using Trans.same⟩
-      | true => simp only [Bool.not_true, Bool.false_eq_true, if_false]; exact ⟨_, Trans.write j hd (byte % 256) hj hl⟩
+      | false => exact ⟨none, by simpa using Trans.same, Or.inr ⟨rfl, fun j' byte' hd' e' h' => by simp only [Op.writes, Option.some.injEq, Prod.mk.injEq] at e'; rw [← e'.1, hj] at h'; cases h'; exact hl⟩⟩
+      | true => simp only [Bool.not_true, Bool.false_eq_true, if_false]; exact ⟨_, Trans.write j hd (byte % 256) hj hl, Or.inl rfl⟩
   | wtrunc j byte newSize =>
     simp only [JitAlloc.step]
     cases hj : s.tab[j]? with
-    | none => exact Or.inl ⟨_, Trans.same⟩
+    | none => exact Or.inl ⟨none, Trans.same, Or.inr ⟨rfl, fun j' byte' hd' e' h' => by simp only [Op.writes, Option.some.injEq, Prod.mk.injEq] at e'; rw [← e'.1, hj] at h'; cases h'⟩⟩
     | some hd =>
       simp only
       cases hl : hd.live with
-      | false => left; exact ⟨_, by simpa using Trans.same⟩
+      | false => left; exact ⟨none, by simpa using Trans.same, Or.inr ⟨rfl, fun j' byte' hd' e' h' => by simp only [Op.writes, Option.some.injEq, Prod.mk.injEq] at e'; rw [← e'.1, hj] at h'; cases h'; exact hl⟩⟩
       | true =>
         simp only [Bool.not_true, Bool.false_eq_true, if_false]
         have hI' := hI.writeMem hd.blk hd.off hd.size (byte % 256)
         have tw := Trans.write (s := s) j hd (byte % 256) hj hl
         split
-        · exact Or.inl ⟨_, tw⟩
+        · exact Or.inl ⟨_, tw, Or.inl rfl⟩
         · right
-          refine ⟨_, some (j, byte % 256), none, tw, hI', ?_⟩
+          refine ⟨_, j, byte % 256, rfl, tw, hI', ?_⟩
           by_cases h0 : newSize = 0
           · simp only [h0, if_true]
             exact rel { s with a := s.a.writeMem hd.blk hd.off hd.size (byte % 256) } hI' j hd hj hl _
@@ -170,7 +178,7 @@ theorem step_trans {s : St} (hI : Inv s) (op : Op) :
             exact shr { s with a := s.a.writeMem hd.blk hd.off hd.size (byte % 256) } hI' j hd hj hl newSize h0
   | read j =>
     left
-    refine ⟨none, ?_⟩
+    refine ⟨none, ?_, Or.inl rfl⟩
     simp only [JitAlloc.step]
     cases hj : s.tab[j]? with
     | none => exact Trans.same
@@ -179,16 +187,20 @@ theorem step_trans {s : St} (hI : Inv s) (op : Op) :
       split
       · exact Trans.same
       · split <;> exact Trans.same
-  | mem => exact Or.inl ⟨_, Trans.same⟩
-  | sweep => exact Or.inl ⟨_, Trans.same⟩
-  | blocks => exact Or.inl ⟨_, Trans.same⟩
-  | dump => exact Or.inl ⟨_, Trans.same⟩
-  | reset hard => exact Or.inl ⟨_, Trans.reset hard⟩
-  | isinit => exact Or.inl ⟨_, Trans.same⟩
-  | rforeign k => exact Or.inl ⟨_, Trans.same⟩
-  | qforeign k => exact Or.inl ⟨_, Trans.same⟩
-  | sforeign => exact Or.inl ⟨_, Trans.same⟩
+  | mem => exact Or.inl ⟨none, Trans.same, Or.inl rfl⟩
+  | sweep => exact Or.inl ⟨none, Trans.same, Or.inl rfl⟩
+  | blocks => exact Or.inl ⟨none, Trans.same, Or.inl rfl⟩
+  | dump => exact Or.inl ⟨none, Trans.same, Or.inl rfl⟩
+  | reset hard => exact Or.inl ⟨none, Trans.reset hard, Or.inl rfl⟩
+  | isinit => exact Or.inl ⟨none, Trans.same, Or.inl rfl⟩
+  | rforeign k => exact Or.inl ⟨none, Trans.same, Or.inl rfl⟩
+  | qforeign k => exact Or.inl ⟨none, Trans.same, Or.inl rfl⟩
+  | sforeign => exact Or.inl ⟨none, Trans.same, Or.inl rfl⟩
 
-
+theorem step_trans {s : St} (hI : Inv s) (op : Op) :
+    (∃ l, Trans s l (step s op).1) ∨ ∃ m l1 l2, Trans s l1 m ∧ Inv m ∧ Trans m l2 (step s op).1 := by
+  rcases step_trans_lbl hI op with ⟨l, t, _⟩ | ⟨m, _, _, _, t1, hm, t2⟩
+  · exact Or.inl ⟨l, t⟩
+  · exact Or.inr ⟨m, _, _, t1, hm, t2⟩
 
 end AsmjitVerif.JitAlloc
